@@ -113,6 +113,22 @@ func scaleProject(shape string, n int) *Project {
 		for i := 0; i < n; i++ {
 			fmt.Fprintf(&sb, "    line %d of the text\n", i)
 		}
+	case "types-and-bodies":
+		// n user types AND n inline bodies (none of which uses any of the types)
+		for i := 0; i < n; i++ {
+			fmt.Fprintf(&sb, "TYPE @t%d\n  {\"a\": %d}\n", i, i)
+		}
+		for i := 0; i < n; i++ {
+			fmt.Fprintf(&sb, "GET /p%d\n  200\n    {\"b\": %d}\n", i, i)
+		}
+	case "enums-and-types":
+		for i := 0; i < n; i++ {
+			fmt.Fprintf(&sb, "ENUM @e%d\n  [%d, %d]\n", i, i, i+1)
+		}
+		for i := 0; i < n; i++ {
+			fmt.Fprintf(&sb, "TYPE @t%d\n  {\"a\": %d}\n", i, i)
+		}
+		sb.WriteString("GET /p\n  200 any\n")
 	case "path-params":
 		// ONE path with n parameters
 		sb.WriteString("GET ")
@@ -236,7 +252,8 @@ func scaleProject(shape string, n int) *Project {
 }
 
 var scaleShapes = []string{"tags", "methods", "methods-with-bodies", "types-independent", "types-chain", "includes-flat", "include-same-file", "pastes", "macros", "description-text", "one-big-body", "types-star", "allof-chain", "macro-chain", "responses", "rpc-methods", "tags-on-methods", "methods-using-one-type", "macro-doubling", "include-doubling",
-	"path-params", "path-segments", "one-tags-directive", "enum-values", "array-items", "or-types", "allof-list", "servers", "query-props", "header-props", "long-annotation", "blank-lines", "comment-lines", "urls-with-methods", "similar-paths"}
+	"path-params", "path-segments", "one-tags-directive", "enum-values", "array-items", "or-types", "allof-list", "servers", "query-props", "header-props", "long-annotation", "blank-lines", "comment-lines", "urls-with-methods", "similar-paths",
+	"types-and-bodies", "enums-and-types"}
 
 // scaleSizes: n and 4n per shape (the doubling shapes are exponential in the real code: 4 and 16
 // are enough to show it and small enough to finish).
